@@ -66,7 +66,7 @@ class TaskStalled(BaseException):
 
 
 STALL_TICK = 20
-STALL_S = int(os.environ.get("VERIF_STALL_S", "180"))
+STALL_S = int(os.environ.get("VERIF_STALL_S", "300"))
 
 
 class Violation(Exception):
@@ -434,9 +434,11 @@ def _run_task(args):
             _install_watchdog(ctx2)
             try:
                 replay_case(ctx2, mod, {"sub": sub, "case": case})
-                ctx.notes.append(f"task {task_name} stalled {STALL_S}s but the case in flight "
-                                 "completed on its own: remainder inconclusive")
-                status, err = "harness_error", f"task {task_name}: time budget hit (inconclusive)"
+                # the machine is merely slow (overloaded): the rest of this task is not explored, which
+                # is recorded, but it is neither a violation nor a defect of the harness
+                ctx.notes.append(f"task {task_name}: no evaluation finished within {STALL_S}s although the case in "
+                                 "flight completes on its own (overloaded machine); remainder of the task inconclusive")
+                ctx.label("tasks_cut_short_by_the_stall_guard")
             except TaskStalled:
                 ctx.violations.append(Violation(
                     prop, sub or task_name, "hang", case,
